@@ -42,6 +42,16 @@ def builtin(name):
 
 
 # ------------------------------------------------------------------ builtins
+@reg('super')
+def _super(I):
+    from .interp import SuperProxy
+    fr = I.frames[-1]
+    fn = fr.funcnode
+    if fn is None or fr.cls is None or not fn.args.args:
+        raise Unsupported('super() outside a method')
+    return SuperProxy(fr.locals[fn.args.args[0].arg], fr.cls)
+
+
 @reg('len')
 def _len(I, x):
     I.trusted.add('len')
@@ -950,7 +960,7 @@ def module_model(name):
             'any': Builtin(np_any, 'np.any'), 'all': Builtin(np_all, 'np.all'),
             'sum': Builtin(lambda I, a, **k: _sum(I, a), 'np.sum'),
             'intp': _DType('intp'), 'int64': _DType('int64'), 'float64': _DType('float64'), 'bool_': _DType('bool'),
-            'inf': __import__('pyvc.values', fromlist=['INF']).INF, 'abs': Builtin(_abs, 'np.abs'),
+            'newaxis': None, 'inf': __import__('pyvc.values', fromlist=['INF']).INF, 'abs': Builtin(_abs, 'np.abs'),
             # dt is modelled as a real number (complex time steps are outside the modelled domain)
             'iscomplex': Builtin(lambda I, x: False, 'np.iscomplex'),
             'promote_types': Builtin(lambda I, a, b: a, 'np.promote_types'),   # dtype bookkeeping is not modelled
